@@ -380,6 +380,7 @@ partial def decPyVal (j : Json) : PyVal :=
   | [Json.str "dict", c, es] => .dict (decDictCls c) (decPyEntries es)
   | [Json.str "opaque", Json.str f, Json.str p] => .opaque f p
   | [Json.str "objarray", shape, cells] => .objarray ((asList shape).map fun x => x.getNat?.toOption.getD 0) (decPyVals cells)
+  | [Json.str "obj", Json.str c, st] => .obj c (decPyVal st)
   | [Json.str "property"] => .property
   | [Json.str "unsupported", Json.str w] => .unsupported w
   | _ => .unsupported "?"
@@ -411,6 +412,7 @@ partial def encPyVal : PyVal → Json
   | .dict c es => Json.arr #["dict", encDictCls c, encPyEntries es]
   | .opaque f p => Json.arr #["opaque", f, p]
   | .objarray shape cells => Json.arr #["objarray", Json.arr (shape.map natJ).toArray, encPyVals cells]
+  | .obj c st => Json.arr #["obj", c, encPyVal st]
   | .property => Json.arr #["property"]
   | .unsupported w => Json.arr #["unsupported", w]
 partial def encPyVals : PyVals → Json
@@ -438,6 +440,7 @@ partial def schJson : Sch → Json
   | .ddict cls f main => Json.arr #["ddict", cls, f, schJson main]
   | .opaque f _ => Json.arr #["opaque", f]
   | .objarr shape content => Json.arr #["objarr", Json.arr (shape.map natJ).toArray, schsJson content]
+  | .obj cls content => Json.arr #["obj", cls, schJson content]
 partial def schsJson : Schs → Json
   | .nil => Json.arr #[]
   | .cons x xs => match schsJson xs with
